@@ -1005,11 +1005,21 @@ class Eval:
         if dst == src or dst == "std::boxed::Box<%s>" % src:
             return arg
         # a From impl defined in the crate: inline it
-        for b in self.facts.body_list:
+        for b in getattr(self.facts, "all_bodies", self.facts.body_list):
             imp = b.get("impl", {})
             if b["name"] == "from" and imp.get("self_ty") == dst and imp.get("trait", "").endswith("From<%s>" % src):
                 if depth < self.inline_depth:
                     return self.function(b, [arg], depth + 1)
+                if b["def_path"] in getattr(self.facts, "helpers", ()) and self._helper_depth < 6:
+                    # a conversion introduced after the rules were written is a helper of its callers: evaluated in place
+                    self._helper_depth += 1
+                    try:
+                        saved_ret, saved_c, caller_env = self.returns, self.conds, self._cur_env
+                        v_ = self.function(b, [arg], depth + 1)
+                        self.returns, self.conds, self._cur_env = saved_ret, saved_c, caller_env
+                        return v_
+                    finally:
+                        self._helper_depth -= 1
                 return ("call", "From::from[%s<-%s]" % (hq.last(dst), hq.last(src)), (arg,))
         return ("conv", hq.last(dst), arg)
 
